@@ -53,7 +53,7 @@ def classify_atoms(info):
 
 
 def run(ctx, chk):
-    fb = ctx.facts('dev')
+    fb = ctx.facts()
     chk.explanation = ('Classification table of a tracking report (leap status x reference time in the future x older than '
                        '8 update intervals), extracted from the data-message paths of the writer dispatch loop (classifier '
                        'inlined) and evaluated exhaustively over all 65 536 leap-status values; staleness atom canonicalised: '
